@@ -12,14 +12,14 @@ from vlib import log
 
 PROP = "C10"
 INFORMATIONAL = ("LatestRevision", "AccountBalance")
-UNSERVABLE = ("ReadUnaligned", "FreeOutOfRange")
+UNSERVABLE = ("ReadUnaligned", "FreeOutOfRange", "ReadInvalid", "RootsOutOfRange", "AppendEmpty")
 
 
 def leg_m(wd, tier):
     cfg = "Renter_mc.cfg" if tier == "quick" else "Renter_mc3.cfg"
     r = vlib.run_tlc(wd, "Renter", cfg, workers=8, timeout=900)
     vlib.tlc_must_pass(r, "Renter fault space / acceptance rule")
-    log("  M: Renter (%s): %d distinct states, %d transitions, depth %d, %.1fs; SuccessImpliesBound, HonestSucceeds, ObeysRule, PlansAgree hold" %
+    log("  M: Renter (%s): %d distinct states, %d transitions, depth %d, %.1fs; SuccessImpliesBound, HonestSucceeds, WireNormalForm, ObeysRule, PlansAgree hold" %
         (cfg, r.distinct, r.generated, r.depth, r.wall))
     return [r]
 
@@ -98,8 +98,10 @@ def leg_r(wd, tier, binary, verdict, stub="", cfg=None, only=None, tag=""):
         raise vlib.Infra("harness executed %d of %d cases (see %s)" % (res["evaluations"], len(cases), res["log"]))
     if cnt.get("unknown_faults"):
         raise vlib.Infra("the harness does not implement %d enumerated faults: %s" % (cnt["unknown_faults"], res["notes"][:5]))
+    infra = None
     if cnt.get("noop_unbind") and not stub:
-        raise vlib.Infra("%d result-bearing corruptions had no effect on the wire: %s" % (cnt["noop_unbind"], res["notes"][:5]))
+        # reported by run() only if the run found no violation (a violation is the more important news)
+        infra = "%d result-bearing corruptions had no effect on the wire: %s" % (cnt["noop_unbind"], res["notes"][:5])
     if cnt.get("not_dialed") and not stub:
         log("  R: note: %d servable cases ended without the client opening a stream" % cnt["not_dialed"])
     if cnt.get("unservable_refused_locally"):
@@ -111,7 +113,7 @@ def leg_r(wd, tier, binary, verdict, stub="", cfg=None, only=None, tag=""):
             len(res["mismatches"]), res["wall"]))
     return dict(states=nst, edges=ned, paths=len(paths), covered=covered, cases=len(cases), steps=res["evaluations"],
                 distinct=res["distinct"], samples=res["samples"], counts=cnt, full=(covered == ned),
-                trace=os.path.join(wd, trace), case_list=cases, cfg=cfg, notes=res.get("notes") or [],
+                trace=os.path.join(wd, trace), case_list=cases, cfg=cfg, notes=res.get("notes") or [], infra=infra,
                 flagged=flagged_keys(os.path.join(wd, trace), res))
 
 
@@ -124,7 +126,7 @@ def trace_cfg(wd, cfg_edges):
         if s.startswith(("SPECIFICATION", "VIEW", "ACTION_CONSTRAINT", "CHECK_DEADLOCK", "\\*")):
             continue
         keep.append(line)
-    out = "SPECIFICATION TraceSpec\n" + "\n".join(keep) + "\nCONSTRAINT HWM\nINVARIANTS TypeOK SuccessImpliesBound HonestSucceeds\nPOSTCONDITION TraceAccepted\nCHECK_DEADLOCK FALSE\n"
+    out = "SPECIFICATION TraceSpec\n" + "\n".join(keep) + "\nCONSTRAINT HWM\nINVARIANTS TypeOK SuccessImpliesBound HonestSucceeds WireNormalForm\nPOSTCONDITION TraceAccepted\nCHECK_DEADLOCK FALSE\n"
     p = os.path.join(wd, "RenterTrace_gen.cfg")
     open(p, "w").write(out)
     return p
@@ -159,8 +161,9 @@ def leg_t(wd, rr, verdict, tag="t", flagged=()):
         fs = "+".join(sorted("%s.%s:%s" % (f["msg"], f["field"], f["how"]) for f in ev["faults"])) or "honest"
         honest = not ev["eff"]
         kind = ("panic:" + ev.get("note", "") if ev["outcome"] == "panic" else
-                "honest-failed" if honest and ev["outcome"] != "ok" else
-                "accepted-unbound" if ev["outcome"] == "ok" and not ev["bound"] else "accepted-must-reject")
+                "accepted-unbound" if ev["outcome"] == "ok" and not ev["bound"] and ev["rpc"] not in INFORMATIONAL else
+                "request-not-normal-form" if not ev.get("wire", True) else
+                "honest-failed" if honest and ev["outcome"] != "ok" else "accepted-must-reject")
         if event_key(ev) not in flagged:
             log("  T: TLC rejects a recorded outcome the harness did not flag: %s" % json.dumps(ev)[:300])
         verdict.add({"sig": "renter:%s:%s:%s" % (ev["rpc"], fs, kind),
@@ -195,10 +198,12 @@ def run(tier):
         rr["full"] = rr["full"] and r3["full"]
         for k, v in r3["counts"].items():
             rr["counts"][k] = rr["counts"].get(k, 0) + v
-        rr["case_list"] += r3["case_list"]; rr["notes"] += r3["notes"]
+        rr["case_list"] += r3["case_list"]; rr["notes"] += r3["notes"]; rr["infra"] = rr["infra"] or r3["infra"]
         for k in ("events", "rejected", "reported_by_harness", "trace_states"):
             tt[k] += t3[k]
     rc = verdict.finish()
+    if rc == 0 and rr.get("infra"):
+        raise vlib.Infra(rr["infra"])
     cnt = rr["counts"]
     nontrivial = sum(1 for c in rr["case_list"] if c["faults"] and not c["info"])
     cov = {
@@ -292,6 +297,7 @@ def selftest():
          "err->panic")
     def flip_bound(e): e["bound"] = False
     pick(lambda e: e["outcome"] == "ok" and e["bound"] and e["rpc"] == "WriteSector", flip_bound, "bound true->false on a success")
+    pick(lambda e: e["outcome"] == "ok" and e["wire"] and e["rpc"] == "FreeSectors", to("wire", False), "request on the wire not in normal form")
     for i, e, what in muts:
         l2 = list(lines); l2[i] = json.dumps(e, separators=(",", ":"))
         p = os.path.join(wd, "mut.ndjson"); open(p, "w").write("\n".join(l2) + "\n")
@@ -300,5 +306,5 @@ def selftest():
         good = t["rejected"] == 1
         log("selftest 3 (%s rejected by TLC): %s" % (what, "ok" if good else "FAILED"))
         ok = ok and good
-    ok = ok and len(muts) == 5
+    ok = ok and len(muts) == 6
     return 0 if ok else 2
